@@ -377,7 +377,13 @@ func Templates() []Template {
 		return OpCase{Op: "Gemm", Attrs: attrs, Operands: ops, Outs: []string{"y"}}
 	}})
 	ts = append(ts, Template{Name: "MatMul", Sensitive: true, Gen: func(rw, rd *rng.R, b int) OpCase {
-		switch rw.Intn(7) {
+		switch rw.Intn(9) {
+		case 7:
+			// vector x square weight matrix: the data operand has no batch axis at all
+			return OpCase{Op: "MatMul", Operands: []Operand{{V: RandF32(rd, []int{3}, -2, 2), BatchAxis: -1}, weight(RandF32(rw, []int{3, 3}, -1, 1))}, Outs: []string{"y"}}
+		case 8:
+			// square weight matrix x vector
+			return OpCase{Op: "MatMul", Operands: []Operand{weight(RandF32(rw, []int{3, 3}, -1, 1)), {V: RandF32(rd, []int{3}, -2, 2), BatchAxis: -1}}, Outs: []string{"y"}}
 		case 4:
 			// big enough for gonum's blocked / parallel GEMM path
 			return OpCase{Op: "MatMul", Operands: []Operand{data(RandF32(rd, []int{b + 63, 70}, -1, 1), 0), weight(RandF32(rw, []int{70, 66}, -1, 1))}, Outs: []string{"y"}}
